@@ -181,6 +181,15 @@ def run(pid, tier, selftest, assumptions):
            ("MEASUREMENT", ["MIXED", "60", "3.5e38", "8598980006.9", "-5", "1e39", '"abc"', "1e300"])]
     docs.append((a2mlgen.document(a2mlgen.render(fixed[0]), big), False))
     meta.append({"e": "ifdata-described", "pat": {"fam": "ifdata-described", "cmt": "float beyond f32"}, "file_level_comment": False})
+    # negative zero in float and double members (written as 0, which is the same value)
+    negz = [("MODULE", ["/begin", "FLOATS", "-0.0", "0.0", "-0", "/end", "FLOATS"]),
+            ("MEASUREMENT", ["MIXED", "60", "-0.0", "-0.0", "-5", "0", '"abc"', "-0"])]
+    docs.append((a2mlgen.document(a2mlgen.render(fixed[0]), negz), False))
+    meta.append({"e": "ifdata-described", "pat": {"fam": "ifdata-described", "cmt": "negative zero"}, "file_level_comment": False})
+    # uninterpreted IF_DATA (no A2ML): integers up to u64::MAX and below i64::MIN stay what they are
+    bigint = 'ASAP2_VERSION 1 71\n/begin PROJECT p ""\n  /begin MODULE m ""\n    /begin IF_DATA RAW 18446744073709550591 9223372036854775808 18446744073709551615 -9223372036854775808 0xFFFFFFFFFFFFFFFF\n    /end IF_DATA\n  /end MODULE\n/end PROJECT\n'
+    docs.append((bigint, False))
+    meta.append({"e": "ifdata", "pat": {"fam": "ifdata-payload", "cmt": "integers up to u64::MAX"}, "file_level_comment": False})
     if pid in ("C01", "C02", "C05"):
         # the raw A2ML text with every kind of head behind /begin A2ML (tab, blank, line break) and with comments that hold
         # /end, /begin or an unbalanced comment opener
